@@ -530,6 +530,777 @@ fn run_teardown(dec: Dec, opts: &RunOpts) -> RunOut {
     out
 }
 
+// ---------------------------------------------------------------------------------------------
+// Socket, poll, fixed-buffer and linked operations against their direct twins.
+// ---------------------------------------------------------------------------------------------
+
+type Sqe = IoUringSubmissionQueueEntry;
+
+/// Submit the entries, reap exactly one completion per entry (matched by user_data).
+fn submit_reap(ring: &mut IoUring, entries: Vec<(u64, Sqe)>) -> Result<BTreeMap<u64, i32>, Violation> {
+    let n = entries.len();
+    let uds: Vec<u64> = entries.iter().map(|e| e.0).collect();
+    for (i, (_, e)) in entries.into_iter().enumerate() {
+        let Some(slot) = ring.get_next_sqe_slot() else {
+            return Err(Violation { sig: "ops|no-sqe-slot".into(), detail: format!("no slot for entry {i} of {n}") });
+        };
+        unsafe { slot.write(e) };
+    }
+    ring.flush_submission_queue();
+    let mut submitted = false;
+    let mut got: BTreeMap<u64, i32> = BTreeMap::new();
+    while got.len() < n {
+        match io_uring_enter(ring.fd, if submitted { 0 } else { n as u32 }, (n - got.len()) as u32, IoUringEnterFlags::IORING_ENTER_GETEVENTS) {
+            Ok(_) => {}
+            Err(e) if e.code == Some(rusl::error::Errno::EINTR) => continue,
+            Err(e) => return Err(Violation { sig: "ops|enter-failed".into(), detail: format!("{e:?}") }),
+        }
+        submitted = true;
+        while let Some(c) = ring.get_next_cqe() {
+            let (ud, res) = (c.0.user_data, c.0.res);
+            if !uds.contains(&ud) {
+                return Err(Violation { sig: "ops|completion-with-foreign-user-data".into(), detail: format!("completion carries user_data {ud} which was not submitted in this batch") });
+            }
+            if got.insert(ud, res).is_some() {
+                return Err(Violation { sig: "ops|duplicate-completion".into(), detail: format!("two completions for user_data {ud}") });
+            }
+        }
+    }
+    if let Some(c) = ring.get_next_cqe() {
+        return Err(Violation { sig: "ops|extra-completion".into(), detail: format!("an extra completion (user_data {}) after all {n} were reaped", c.0.user_data) });
+    }
+    Ok(got)
+}
+
+fn errno() -> i32 {
+    unsafe { *libc::__errno_location() }
+}
+
+fn sun(path: &str) -> (libc::sockaddr_un, u32) {
+    let mut a: libc::sockaddr_un = unsafe { std::mem::zeroed() };
+    a.sun_family = libc::AF_UNIX as u16;
+    for (i, b) in path.bytes().enumerate() {
+        a.sun_path[i] = b as libc::c_char;
+    }
+    (a, (2 + path.len() + 1) as u32)
+}
+
+fn unix_listener(path: &str) -> i32 {
+    unsafe {
+        let fd = libc::socket(libc::AF_UNIX, libc::SOCK_STREAM | libc::SOCK_CLOEXEC, 0);
+        let (a, l) = sun(path);
+        if fd < 0 || libc::bind(fd, std::ptr::from_ref(&a).cast(), l) != 0 || libc::listen(fd, 16) != 0 {
+            simk::runner::harness_error(&format!("C18: cannot create listener {path}: errno {}", errno()));
+        }
+        fd
+    }
+}
+
+fn unix_client(listener_path: &str, own_name: Option<&str>) -> i32 {
+    unsafe {
+        let fd = libc::socket(libc::AF_UNIX, libc::SOCK_STREAM | libc::SOCK_CLOEXEC, 0);
+        if let Some(n) = own_name {
+            let (a, l) = sun(n);
+            libc::bind(fd, std::ptr::from_ref(&a).cast(), l);
+        }
+        let (a, l) = sun(listener_path);
+        if fd < 0 || libc::connect(fd, std::ptr::from_ref(&a).cast(), l) != 0 {
+            simk::runner::harness_error(&format!("C18: cannot connect to {listener_path}: errno {}", errno()));
+        }
+        fd
+    }
+}
+
+fn inet_listener() -> (i32, u16) {
+    unsafe {
+        let fd = libc::socket(libc::AF_INET, libc::SOCK_STREAM | libc::SOCK_CLOEXEC, 0);
+        let mut a: libc::sockaddr_in = std::mem::zeroed();
+        a.sin_family = libc::AF_INET as u16;
+        a.sin_addr.s_addr = u32::from_ne_bytes([127, 0, 0, 1]);
+        let mut l = 16u32;
+        if fd < 0 || libc::bind(fd, std::ptr::from_ref(&a).cast(), 16) != 0 || libc::listen(fd, 16) != 0 || libc::getsockname(fd, std::ptr::from_mut(&mut a).cast(), &mut l) != 0 {
+            simk::runner::harness_error(&format!("C18: cannot create a loopback listener: errno {}", errno()));
+        }
+        (fd, u16::from_be(a.sin_port))
+    }
+}
+
+fn inet_client(port: u16) -> (i32, [u8; 16]) {
+    unsafe {
+        let fd = libc::socket(libc::AF_INET, libc::SOCK_STREAM | libc::SOCK_CLOEXEC, 0);
+        let mut a: libc::sockaddr_in = std::mem::zeroed();
+        a.sin_family = libc::AF_INET as u16;
+        a.sin_addr.s_addr = u32::from_ne_bytes([127, 0, 0, 1]);
+        a.sin_port = port.to_be();
+        if fd < 0 || libc::connect(fd, std::ptr::from_ref(&a).cast(), 16) != 0 {
+            simk::runner::harness_error(&format!("C18: cannot connect to loopback port {port}: errno {}", errno()));
+        }
+        let mut own = [0u8; 16];
+        let mut l = 16u32;
+        libc::getsockname(fd, own.as_mut_ptr().cast(), &mut l);
+        (fd, own)
+    }
+}
+
+fn pair() -> (i32, i32) {
+    let mut p = [0i32; 2];
+    if unsafe { libc::socketpair(libc::AF_UNIX, libc::SOCK_STREAM | libc::SOCK_CLOEXEC, 0, p.as_mut_ptr()) } != 0 {
+        simk::runner::harness_error("C18: socketpair failed");
+    }
+    (p[0], p[1])
+}
+
+fn readable_now(fd: i32) -> bool {
+    let mut p = libc::pollfd { fd, events: libc::POLLIN, revents: 0 };
+    unsafe { libc::poll(&mut p, 1, 0) == 1 && p.revents & libc::POLLIN != 0 }
+}
+
+/// libc sendmsg of `data` in `parts` pieces with `fds` as SCM_RIGHTS.
+fn libc_sendmsg(sock: i32, data: &[u8], parts: usize, fds: &[i32]) -> i32 {
+    let step = data.len().div_ceil(parts.max(1)).max(1);
+    let mut iov: Vec<libc::iovec> = data.chunks(step).map(|c| libc::iovec { iov_base: c.as_ptr() as *mut _, iov_len: c.len() }).collect();
+    let mut ctl = vec![0u64; 64];
+    let mut h: libc::msghdr = unsafe { std::mem::zeroed() };
+    h.msg_iov = iov.as_mut_ptr();
+    h.msg_iovlen = iov.len();
+    if !fds.is_empty() {
+        unsafe {
+            h.msg_control = ctl.as_mut_ptr().cast();
+            h.msg_controllen = libc::CMSG_SPACE((fds.len() * 4) as u32) as usize;
+            let c = libc::CMSG_FIRSTHDR(&h);
+            (*c).cmsg_level = libc::SOL_SOCKET;
+            (*c).cmsg_type = libc::SCM_RIGHTS;
+            (*c).cmsg_len = libc::CMSG_LEN((fds.len() * 4) as u32) as usize;
+            std::ptr::copy_nonoverlapping(fds.as_ptr(), libc::CMSG_DATA(c).cast::<i32>(), fds.len());
+        }
+    }
+    let r = unsafe { libc::sendmsg(sock, &h, libc::MSG_NOSIGNAL) };
+    if r < 0 { -errno() } else { r as i32 }
+}
+
+struct Received {
+    res: i32,
+    data: Vec<u8>,
+    fds: Vec<i32>,
+    flags: i32,
+}
+
+/// libc recvmsg with the given buffer and control-buffer sizes.
+fn libc_recvmsg(sock: i32, buf_len: usize, ctl_len: usize, flags: i32) -> Received {
+    let mut buf = vec![0u8; buf_len];
+    let mut ctl = vec![0u64; ctl_len.div_ceil(8) + 1];
+    let mut iov = libc::iovec { iov_base: buf.as_mut_ptr().cast(), iov_len: buf_len };
+    let mut h: libc::msghdr = unsafe { std::mem::zeroed() };
+    h.msg_iov = &mut iov;
+    h.msg_iovlen = 1;
+    if ctl_len > 0 {
+        h.msg_control = ctl.as_mut_ptr().cast();
+        h.msg_controllen = ctl_len;
+    }
+    let r = unsafe { libc::recvmsg(sock, &mut h, flags) };
+    let mut fds = Vec::new();
+    if r >= 0 {
+        unsafe {
+            let mut c = libc::CMSG_FIRSTHDR(&h);
+            while !c.is_null() {
+                if (*c).cmsg_level == libc::SOL_SOCKET && (*c).cmsg_type == libc::SCM_RIGHTS {
+                    let n = ((*c).cmsg_len - libc::CMSG_LEN(0) as usize) / 4;
+                    for i in 0..n {
+                        fds.push(libc::CMSG_DATA(c).cast::<i32>().add(i).read_unaligned());
+                    }
+                }
+                c = libc::CMSG_NXTHDR(&h, c);
+            }
+        }
+    }
+    buf.truncate(r.max(0) as usize);
+    Received { res: if r < 0 { -errno() } else { r as i32 }, data: buf, fds, flags: h.msg_flags }
+}
+
+fn close_all(fds: &[i32]) {
+    for f in fds {
+        if *f > 2 {
+            unsafe { libc::close(*f) };
+        }
+    }
+}
+
+const CANARY: u8 = 0xC5;
+
+/// A byte region surrounded by canaries (to catch the kernel writing where it was not told to).
+struct Guarded {
+    mem: Vec<u8>,
+    len: usize,
+}
+
+impl Guarded {
+    const PAD: usize = 128;
+    fn new(len: usize, fill: u8) -> Self {
+        let mut mem = vec![CANARY; len + 2 * Self::PAD];
+        for b in &mut mem[Self::PAD..Self::PAD + len] {
+            *b = fill;
+        }
+        Self { mem, len }
+    }
+    fn ptr(&mut self) -> *mut u8 {
+        unsafe { self.mem.as_mut_ptr().add(Self::PAD) }
+    }
+    fn bytes(&self) -> &[u8] {
+        &self.mem[Self::PAD..Self::PAD + self.len]
+    }
+    fn intact(&self) -> bool {
+        self.mem[..Self::PAD].iter().all(|b| *b == CANARY) && self.mem[Self::PAD + self.len..].iter().all(|b| *b == CANARY)
+    }
+}
+
+fn ext_viol(kind: &str, what: &str, detail: String) -> Option<Violation> {
+    Some(Violation { sig: format!("ops|{kind}|{what}"), detail: detail.chars().take(400).collect() })
+}
+
+#[allow(clippy::too_many_lines)]
+fn run_ext_ops(dec: Dec, opts: &RunOpts, slot: u64, rounds: usize) -> RunOut {
+    let base = format!("/verif/work/c18x.{}.{}", unsafe { libc::getpid() }, slot % 2);
+    let _ = std::fs::remove_dir_all(&base);
+    let (da, db) = (format!("{base}/ring"), format!("{base}/twin"));
+    std::fs::create_dir_all(&da).unwrap();
+    std::fs::create_dir_all(&db).unwrap();
+    let mut sim = Sim::new(dec, SimCfg { record: opts.record, ..SimCfg::default() });
+    let entries = 1u32 << (1 + sim.dec.choose(K::Cfg, 5));
+    let led = Ledger { ring_fd: Cell::new(-1), maps: RefCell::new(Vec::new()), foreign_unmaps: RefCell::new(Vec::new()), closes_of_ring: Cell::new(0), fail_call: Cell::new(None), setup_calls: Cell::new(0), fired: Cell::new(false), n_enter: Cell::new(0) };
+    sim.set_kernel(&led);
+    let mut viol: Option<Violation> = None;
+    let mut log: Vec<String> = Vec::new();
+    let mut nops = 0u64;
+    let mut kinds: std::collections::BTreeSet<&'static str> = std::collections::BTreeSet::new();
+    let mut counters: Vec<(&'static str, u64)> = Vec::new();
+    sched::with_installed(&mut sim, || {
+        let r = std::panic::catch_unwind(std::panic::AssertUnwindSafe(|| -> Option<Violation> {
+            let s = sched::sim().unwrap();
+            let flags = match s.dec.choose(K::Cfg, 4) {
+                0 | 1 => IoUringParamFlags::empty(),
+                2 => IoUringParamFlags::IORING_SETUP_SQE128,
+                _ => IoUringParamFlags::IORING_SETUP_CQE32,
+            };
+            let mut ring = match setup_io_uring(entries, flags, 0, 0) {
+                Ok(r) => r,
+                Err(_) => match setup_io_uring(entries, IoUringParamFlags::empty(), 0, 0) {
+                    Ok(r) => r,
+                    Err(e) => return Some(Violation { sig: "ops|setup-failed".into(), detail: format!("{e:?}") }),
+                },
+            };
+            // registered (fixed) buffers
+            let mut reg0 = vec![0u8; 8192];
+            let mut reg1 = vec![0u8; 4096];
+            let registered = {
+                let sl = unsafe { [IoSliceMut::new(std::slice::from_raw_parts_mut(reg0.as_mut_ptr(), reg0.len())), IoSliceMut::new(std::slice::from_raw_parts_mut(reg1.as_mut_ptr(), reg1.len()))] };
+                if s.dec.chance(K::Cfg, 1, 2) { rusl::io_uring::io_uring_register_io_slices(ring.fd, &sl).is_ok() } else { unsafe { rusl::io_uring::io_uring_register_buffers(ring.fd, &sl).is_ok() } }
+            };
+            let (lpa, lpb) = (format!("{base}/la.sock"), format!("{base}/lb.sock"));
+            let (la, lb) = (unix_listener(&lpa), unix_listener(&lpb));
+            let ((lia, pa), (lib, pb)) = (inet_listener(), inet_listener());
+            let cpath = |n: &str| std::ffi::CString::new(n).unwrap();
+            let fa = unsafe { libc::open(cpath(&format!("{base}/fa")).as_ptr(), libc::O_RDWR | libc::O_CREAT | libc::O_CLOEXEC, 0o644) };
+            let fb = unsafe { libc::open(cpath(&format!("{base}/fb")).as_ptr(), libc::O_RDWR | libc::O_CREAT | libc::O_CLOEXEC, 0o644) };
+            let dfa = unsafe { libc::open(cpath(&da).as_ptr(), libc::O_RDONLY | libc::O_DIRECTORY | libc::O_CLOEXEC) };
+            let dfb = unsafe { libc::open(cpath(&db).as_ptr(), libc::O_RDONLY | libc::O_DIRECTORY | libc::O_CLOEXEC) };
+            let names: Vec<UnixString> = (0..4).map(|i| UnixString::try_from_string(format!("n{i}")).unwrap()).collect();
+            let fd_of = |v: i32| Fd::try_new(v).unwrap();
+            let mut ud: u64 = 0x5000;
+            let no = IoUringSQEFlags::empty();
+            let mut verdict: Option<Violation> = None;
+            for round in 0..rounds {
+                ud += 16;
+                let kind = s.dec.choose(K::Op, 9);
+                nops += 1;
+                let v: Option<Violation> = match kind {
+                    // ---- connect
+                    0 => {
+                        kinds.insert("connect");
+                        let target = s.dec.choose(K::Arg, 4);
+                        let (ta, tb) = match target {
+                            0 | 1 => (lpa.clone(), lpb.clone()),
+                            2 => (format!("{base}/missing-a"), format!("{base}/missing-b")),
+                            _ => (format!("{base}/fa"), format!("{base}/fb")),
+                        };
+                        let sa = unsafe { libc::socket(libc::AF_UNIX, libc::SOCK_STREAM | libc::SOCK_CLOEXEC, 0) };
+                        let sb = unsafe { libc::socket(libc::AF_UNIX, libc::SOCK_STREAM | libc::SOCK_CLOEXEC, 0) };
+                        let arg = SocketAddressUnix::try_from_unix(&UnixString::try_from_string(ta.clone()).unwrap()).unwrap();
+                        let e = unsafe { Sqe::new_connect_unix(fd_of(sa), &arg, ud, no) };
+                        let got = match submit_reap(&mut ring, vec![(ud, e)]) {
+                            Ok(g) => g[&ud],
+                            Err(v) => return Some(v),
+                        };
+                        let (a, l) = sun(&tb);
+                        let tw = unsafe { libc::connect(sb, std::ptr::from_ref(&a).cast(), l) };
+                        let tw = if tw < 0 { -errno() } else { 0 };
+                        log.push(format!("connect target {target} -> ring {got} twin {tw}"));
+                        let mut v = None;
+                        if got != tw {
+                            v = ext_viol("Connect", "result-differs", format!("connect through the ring to {} gives {got}, connect(2) gives {tw}", if target < 2 { "a listening socket" } else if target == 2 { "a missing path" } else { "a regular file" }));
+                        } else if tw == 0 {
+                            // side effect: the listener has a connection to hand out
+                            let (ra, rb) = (readable_now(la), readable_now(lb));
+                            if ra != rb {
+                                v = ext_viol("Connect", "side-effects-differ", format!("after a successful connect the ring side's listener has a pending connection: {ra}, the twin's: {rb}"));
+                            }
+                            for l in [la, lb] {
+                                if readable_now(l) {
+                                    let f = unsafe { libc::accept4(l, std::ptr::null_mut(), std::ptr::null_mut(), libc::SOCK_CLOEXEC) };
+                                    close_all(&[f]);
+                                }
+                            }
+                        }
+                        close_all(&[sa, sb]);
+                        v
+                    }
+                    // ---- accept (unix)
+                    1 | 2 => {
+                        kinds.insert("accept_unix");
+                        let named = s.dec.chance(K::Arg, 2, 3);
+                        let with_addr = s.dec.chance(K::Arg, 3, 4);
+                        let fill = *s.dec.pick(K::Arg, &[0u8, 0, 0xff]);
+                        let init_len = *s.dec.pick(K::Arg, &[110u64, 110, 2, 20, 0]);
+                        let (na, nb) = (format!("{base}/ca{round}"), format!("{base}/cb{round}"));
+                        let ca = unix_client(&lpa, if named { Some(&na) } else { None });
+                        let cb = unix_client(&lpb, if named { Some(&nb) } else { None });
+                        let mut addr = Guarded::new(110, fill);
+                        let mut len = Guarded::new(8, 0);
+                        unsafe { len.ptr().cast::<u64>().write_unaligned(init_len) };
+                        let (ap, lp) = if with_addr { (addr.ptr().cast::<SocketAddressUnix>(), len.ptr().cast::<u64>()) } else { (std::ptr::null_mut(), std::ptr::null_mut()) };
+                        let e = unsafe { Sqe::new_accept_unix(fd_of(la), ap, lp, SocketFlags::SOCK_CLOEXEC, ud, no) };
+                        let got = match submit_reap(&mut ring, vec![(ud, e)]) {
+                            Ok(g) => g[&ud],
+                            Err(v) => return Some(v),
+                        };
+                        let mut tb = vec![fill; 110];
+                        let mut tl: u32 = init_len as u32;
+                        let tw = unsafe { if with_addr { libc::accept4(lb, tb.as_mut_ptr().cast(), &mut tl, libc::SOCK_CLOEXEC) } else { libc::accept4(lb, std::ptr::null_mut(), std::ptr::null_mut(), libc::SOCK_CLOEXEC) } };
+                        let twr = if tw < 0 { -errno() } else { 0 };
+                        log.push(format!("accept_unix named {named} addr {with_addr} len {init_len} -> ring {} twin {twr}", got.min(0)));
+                        let mut v = None;
+                        if got.min(0) != twr {
+                            v = ext_viol("Accept", "result-differs", format!("accept through the ring gives {got}, accept4(2) gives {twr}"));
+                        } else if !addr.intact() || !len.intact() {
+                            v = ext_viol("Accept", "writes-outside-its-buffers", "bytes next to the address buffer or next to the length word were overwritten".into());
+                        } else if with_addr && twr == 0 {
+                            let rl = unsafe { len.ptr().cast::<u64>().read_unaligned() };
+                            // the twin's address names cb<round>, the ring's ca<round>
+                            let mut expect = tb.clone();
+                            let at = 2 + base.len() + 2;
+                            if named && at < (init_len as usize).min(110) {
+                                expect[at] = b'a';
+                            }
+                            if (rl & 0xffff_ffff) as u32 != tl || rl >> 32 != 0 {
+                                v = ext_viol("Accept", "address-length-differs", format!("peer address length: the ring's accept left {rl} in *addr_len (initially {init_len}), accept4(2) returns {tl}"));
+                            } else if addr.bytes() != &expect[..] {
+                                v = ext_viol("Accept", "address-differs", format!("the peer address written by the ring's accept differs from what accept4(2) writes: {:?} vs {:?}", &addr.bytes()[..24], &expect[..24]));
+                            }
+                        }
+                        close_all(&[ca, cb, got, tw]);
+                        if named {
+                            let _ = std::fs::remove_file(&na);
+                            let _ = std::fs::remove_file(&nb);
+                        }
+                        v
+                    }
+                    // ---- accept (inet)
+                    3 => {
+                        kinds.insert("accept_inet");
+                        let with_addr = s.dec.chance(K::Arg, 3, 4);
+                        let init_len = *s.dec.pick(K::Arg, &[16u64, 16, 8, 128]);
+                        let (ca, own_a) = inet_client(pa);
+                        let (cb, own_b) = inet_client(pb);
+                        let mut addr = Guarded::new(16, 0);
+                        let mut len = Guarded::new(8, 0);
+                        unsafe { len.ptr().cast::<u64>().write_unaligned(init_len) };
+                        let (ap, lp) = if with_addr { (addr.ptr().cast::<SocketAddressInet>(), len.ptr().cast::<u64>()) } else { (std::ptr::null_mut(), std::ptr::null_mut()) };
+                        let e = unsafe { Sqe::new_accept_inet(fd_of(lia), ap, lp, SocketFlags::SOCK_CLOEXEC, ud, no) };
+                        let got = match submit_reap(&mut ring, vec![(ud, e)]) {
+                            Ok(g) => g[&ud],
+                            Err(v) => return Some(v),
+                        };
+                        let mut tb = [0u8; 16];
+                        let mut tl: u32 = init_len as u32;
+                        let tw = unsafe { if with_addr { libc::accept4(lib, tb.as_mut_ptr().cast(), &mut tl, libc::SOCK_CLOEXEC) } else { libc::accept4(lib, std::ptr::null_mut(), std::ptr::null_mut(), libc::SOCK_CLOEXEC) } };
+                        let twr = if tw < 0 { -errno() } else { 0 };
+                        log.push(format!("accept_inet addr {with_addr} len {init_len} -> ring {} twin {twr}", got.min(0)));
+                        let mut v = None;
+                        if got.min(0) != twr {
+                            v = ext_viol("Accept", "result-differs", format!("inet accept through the ring gives {got}, accept4(2) gives {twr}"));
+                        } else if !addr.intact() || !len.intact() {
+                            v = ext_viol("Accept", "writes-outside-its-buffers", "bytes next to the inet address buffer or next to the length word were overwritten".into());
+                        } else if with_addr && twr == 0 {
+                            let rl = unsafe { len.ptr().cast::<u64>().read_unaligned() };
+                            let n = (init_len as usize).min(16);
+                            // each side must name its own client (family, port, 127.0.0.1)
+                            if (rl & 0xffff_ffff) as u32 != tl || rl >> 32 != 0 {
+                                v = ext_viol("Accept", "address-length-differs", format!("inet peer address length: ring {rl} (initially {init_len}), accept4(2) {tl}"));
+                            } else if tb[..n] != own_b[..n] {
+                                simk::runner::harness_error("C18: the twin's accept4 did not return its client's address");
+                            } else if addr.bytes()[..n] != own_a[..n] || addr.bytes()[n..].iter().any(|b| *b != 0) {
+                                v = ext_viol("Accept", "address-differs", format!("the inet peer address written by the ring's accept is {:?}, the client's address is {:?}", addr.bytes(), own_a));
+                            }
+                        }
+                        close_all(&[ca, cb, got, tw]);
+                        v
+                    }
+                    // ---- sendmsg
+                    4 => {
+                        kinds.insert("sendmsg");
+                        let n = *s.dec.pick(K::Arg, &[1usize, 5, 100, 4096, 30_000]);
+                        let parts = 1 + s.dec.choose(K::Arg, 3) as usize;
+                        let nfds = *s.dec.pick(K::Arg, &[0usize, 0, 1, 2, 5]);
+                        let sd = s.dec.choose(K::Arg, 250) as u8;
+                        let data: Vec<u8> = (0..n).map(|i| (i as u8).wrapping_mul(7).wrapping_add(sd)).collect();
+                        let ((a0, a1), (b0, b1)) = (pair(), pair());
+                        let pass: Vec<i32> = (0..nfds).map(|_| unsafe { libc::dup(fa) }).collect();
+                        let pass_fd: Vec<Fd> = pass.iter().map(|f| fd_of(*f)).collect();
+                        let step = n.div_ceil(parts).max(1);
+                        let io: Vec<IoSlice> = data.chunks(step).map(IoSlice::new).collect();
+                        let guard = MsgHdrBorrow::create_send(None, &io, if nfds > 0 { Some(ControlMessageSend::ScmRights(&pass_fd)) } else { None });
+                        let raw = s.dec.chance(K::Arg, 1, 3);
+                        let e = unsafe { Sqe::new_sendmsg(fd_of(a0), &guard, 0, ud, no) };
+                        let _ = raw;
+                        let got = match submit_reap(&mut ring, vec![(ud, e)]) {
+                            Ok(g) => g[&ud],
+                            Err(v) => return Some(v),
+                        };
+                        let tw = libc_sendmsg(b0, &data, parts, &pass);
+                        let ra = libc_recvmsg(a1, n + 16, 256, libc::MSG_DONTWAIT);
+                        let rb = libc_recvmsg(b1, n + 16, 256, libc::MSG_DONTWAIT);
+                        log.push(format!("sendmsg {n} bytes {parts} parts {nfds} fds -> ring {got} twin {tw}"));
+                        let mut v = None;
+                        if got != tw {
+                            v = ext_viol("Sendmsg", "result-differs", format!("sendmsg through the ring gives {got}, sendmsg(2) gives {tw}"));
+                        } else if ra.data != rb.data || ra.res != rb.res {
+                            v = ext_viol("Sendmsg", "side-effects-differ", format!("the peer of the ring's sendmsg receives {} bytes, the twin's peer {} ({} sent); same bytes: {}", ra.res, rb.res, n, ra.data == rb.data));
+                        } else if ra.fds.len() != rb.fds.len() {
+                            v = ext_viol("Sendmsg", "side-effects-differ", format!("the peer of the ring's sendmsg receives {} descriptors, the twin's peer {}", ra.fds.len(), rb.fds.len()));
+                        }
+                        close_all(&ra.fds);
+                        close_all(&rb.fds);
+                        close_all(&pass);
+                        close_all(&[a0, a1, b0, b1]);
+                        v
+                    }
+                    // ---- recvmsg
+                    5 => {
+                        kinds.insert("recvmsg");
+                        let n = *s.dec.pick(K::Arg, &[1usize, 5, 100, 4096]);
+                        let buf_len = *s.dec.pick(K::Arg, &[1usize, 64, 5000]);
+                        let nfds = *s.dec.pick(K::Arg, &[0usize, 0, 1, 3]);
+                        let ctl_len = *s.dec.pick(K::Arg, &[0usize, 16, 20, 24, 32, 64, 200]);
+                        let sd = s.dec.choose(K::Arg, 250) as u8;
+                        let data: Vec<u8> = (0..n).map(|i| (i as u8).wrapping_mul(3).wrapping_add(sd)).collect();
+                        let ((a0, a1), (b0, b1)) = (pair(), pair());
+                        let pass: Vec<i32> = (0..nfds).map(|_| unsafe { libc::dup(fa) }).collect();
+                        let (s1, s2) = (libc_sendmsg(a1, &data, 1, &pass), libc_sendmsg(b1, &data, 1, &pass));
+                        if s1 != n as i32 || s2 != n as i32 {
+                            simk::runner::harness_error("C18: harness sendmsg failed");
+                        }
+                        let mut buf = Guarded::new(buf_len, 0);
+                        let mut ctl = Guarded::new(ctl_len.max(1), 0);
+                        let bslice: &mut [u8] = unsafe { std::slice::from_raw_parts_mut(buf.ptr(), buf_len) };
+                        let cslice: &mut [u8] = unsafe { std::slice::from_raw_parts_mut(ctl.ptr(), ctl_len) };
+                        let mut iov = [IoSliceMut::new(bslice)];
+                        let mut hdr = MsgHdrBorrow::create_recv(&mut iov, if ctl_len > 0 { Some(cslice) } else { None });
+                        let e = unsafe { Sqe::new_recvmsg(fd_of(a0), core::ptr::addr_of_mut!(hdr).cast(), 0, ud, no) };
+                        let got = match submit_reap(&mut ring, vec![(ud, e)]) {
+                            Ok(g) => g[&ud],
+                            Err(v) => return Some(v),
+                        };
+                        let rb = libc_recvmsg(b0, buf_len, ctl_len, 0);
+                        let mut ring_fds: Vec<i32> = Vec::new();
+                        if got >= 0 {
+                            for m in hdr.control_messages() {
+                                let ControlMessageSend::ScmRights(f) = m;
+                                ring_fds.extend(f.iter().map(|x| x.value()));
+                            }
+                        }
+                        log.push(format!("recvmsg {n} sent buf {buf_len} ctl {ctl_len} fds {nfds} -> ring {got} twin {}", rb.res));
+                        let mut v = None;
+                        if got != rb.res {
+                            v = ext_viol("Recvmsg", "result-differs", format!("recvmsg through the ring gives {got}, recvmsg(2) gives {}", rb.res));
+                        } else if !buf.intact() || !ctl.intact() {
+                            v = ext_viol("Recvmsg", "writes-outside-its-buffers", "bytes next to the data or control buffer were overwritten".into());
+                        } else if got >= 0 && buf.bytes()[..got as usize] != rb.data[..] {
+                            v = ext_viol("Recvmsg", "wrong-data", format!("the ring's recvmsg delivered different bytes than recvmsg(2) ({got} bytes)"));
+                        } else if ring_fds.len() != rb.fds.len() {
+                            v = ext_viol("Recvmsg", "descriptors-differ", format!("the ring's recvmsg delivered {} descriptors ({:?}), recvmsg(2) delivers {} (control buffer {ctl_len} bytes, {nfds} sent)", ring_fds.len(), ring_fds, rb.fds.len()));
+                        } else {
+                            // every received descriptor designates the passed file
+                            let ino = |f: i32| unsafe {
+                                let mut st: libc::stat = std::mem::zeroed();
+                                if libc::fstat(f, &mut st) == 0 { Some((st.st_dev, st.st_ino)) } else { None }
+                            };
+                            let want = ino(fa);
+                            if let Some(f) = ring_fds.iter().find(|f| ino(**f) != want) {
+                                v = ext_viol("Recvmsg", "descriptors-differ", format!("descriptor {f} reported by the control-message iterator after the ring's recvmsg is not the passed file"));
+                                ring_fds.clear();
+                            }
+                        }
+                        close_all(&ring_fds);
+                        close_all(&rb.fds);
+                        close_all(&pass);
+                        close_all(&[a0, a1, b0, b1]);
+                        v
+                    }
+                    // ---- poll_add on a descriptor that is ready
+                    6 => {
+                        kinds.insert("poll_add");
+                        let state = s.dec.choose(K::Arg, 3);
+                        let ev: i16 = match (state, s.dec.choose(K::Arg, 3)) {
+                            (0, _) | (_, 0) => libc::POLLOUT,
+                            (_, 1) => libc::POLLIN,
+                            _ => libc::POLLIN | libc::POLLOUT,
+                        };
+                        let ((a0, a1), (b0, b1)) = (pair(), pair());
+                        if state >= 1 {
+                            unsafe {
+                                libc::write(a1, b"x".as_ptr().cast(), 1);
+                                libc::write(b1, b"x".as_ptr().cast(), 1);
+                            }
+                        }
+                        if state == 2 {
+                            close_all(&[a1, b1]);
+                        }
+                        let e = Sqe::new_poll_add(fd_of(a0), { let mut pe = PollEvents::empty(); if ev & libc::POLLIN != 0 { pe = pe | PollEvents::POLLIN; } if ev & libc::POLLOUT != 0 { pe = pe | PollEvents::POLLOUT; } pe }, PollAddMultiFlags::empty(), ud, no);
+                        let got = match submit_reap(&mut ring, vec![(ud, e)]) {
+                            Ok(g) => g[&ud],
+                            Err(v) => return Some(v),
+                        };
+                        let mut p = libc::pollfd { fd: b0, events: ev, revents: 0 };
+                        let tw = unsafe { libc::poll(&mut p, 1, 0) };
+                        let mask = i32::from(libc::POLLIN | libc::POLLOUT | libc::POLLERR | libc::POLLHUP | libc::POLLPRI);
+                        log.push(format!("poll_add events {ev:#x} state {state} -> ring {got:#x} twin {:#x}", p.revents));
+                        let mut v = None;
+                        if tw != 1 {
+                            simk::runner::harness_error("C18: twin poll not ready");
+                        } else if got < 0 || got & mask != i32::from(p.revents) & mask {
+                            v = ext_viol("PollAdd", "result-differs", format!("poll_add({ev:#x}) through the ring completes with {got:#x}, poll(2) reports {:#x}", p.revents));
+                        }
+                        if state == 2 {
+                            close_all(&[a0, b0]);
+                        } else {
+                            close_all(&[a0, a1, b0, b1]);
+                        }
+                        v
+                    }
+                    // ---- fixed-buffer write and read
+                    7 => {
+                        kinds.insert("fixed");
+                        if !registered {
+                            counters.push(("probe.fixed_buffers_not_registered", 1));
+                            None
+                        } else {
+                            let wlen = *s.dec.pick(K::Arg, &[1usize, 100, 4096, 8192]);
+                            let woff = if wlen < 8192 { s.dec.choose(K::Arg, (8192 - wlen) as u32) as usize } else { 0 };
+                            let sd = s.dec.choose(K::Arg, 250) as u8;
+                            for (i, b) in reg0[woff..woff + wlen].iter_mut().enumerate() {
+                                *b = (i as u8).wrapping_mul(5).wrapping_add(sd);
+                            }
+                            let e = unsafe { Sqe::new_writev_fixed(fd_of(fa), 0, reg0.as_ptr().add(woff) as u64, wlen as u32, ud, no) };
+                            let got = match submit_reap(&mut ring, vec![(ud, e)]) {
+                                Ok(g) => g[&ud],
+                                Err(v) => return Some(v),
+                            };
+                            let tw = unsafe { libc::pwrite(fb, reg0.as_ptr().add(woff).cast(), wlen, 0) };
+                            let tw = if tw < 0 { -errno() } else { tw as i32 };
+                            let rlen = *s.dec.pick(K::Arg, &[1usize, 64, 4096]);
+                            let roff = if rlen < 4096 { s.dec.choose(K::Arg, (4096 - rlen) as u32) as usize } else { 0 };
+                            reg1.fill(0xEE);
+                            let e = unsafe { Sqe::new_readv_fixed(fd_of(fa), 1, reg1.as_mut_ptr().add(roff) as u64, rlen as u32, ud + 1, no) };
+                            let got_r = match submit_reap(&mut ring, vec![(ud + 1, e)]) {
+                                Ok(g) => g[&(ud + 1)],
+                                Err(v) => return Some(v),
+                            };
+                            let mut tbuf = vec![0u8; rlen];
+                            let tr = unsafe { libc::pread(fb, tbuf.as_mut_ptr().cast(), rlen, 0) };
+                            let tr = if tr < 0 { -errno() } else { tr as i32 };
+                            log.push(format!("write_fixed {wlen}@{woff} -> ring {got} twin {tw}; read_fixed {rlen}@{roff} -> ring {got_r} twin {tr}"));
+                            let (ca, cb) = (std::fs::read(format!("{base}/fa")).unwrap_or_default(), std::fs::read(format!("{base}/fb")).unwrap_or_default());
+                            if got != tw {
+                                ext_viol("WriteFixed", "result-differs", format!("write_fixed of {wlen} bytes gives {got}, pwrite(2) gives {tw}"))
+                            } else if ca != cb {
+                                ext_viol("WriteFixed", "side-effects-differ", format!("after write_fixed the file differs from the twin written with pwrite(2) ({} vs {} bytes)", ca.len(), cb.len()))
+                            } else if got_r != tr {
+                                ext_viol("ReadFixed", "result-differs", format!("read_fixed of {rlen} bytes gives {got_r}, pread(2) gives {tr}"))
+                            } else if got_r >= 0 && (reg1[roff..roff + got_r as usize] != tbuf[..got_r as usize] || reg1[..roff].iter().any(|b| *b != 0xEE) || reg1[roff + got_r as usize..].iter().any(|b| *b != 0xEE)) {
+                                ext_viol("ReadFixed", "wrong-data", "read_fixed delivered other bytes than pread(2), or wrote outside the requested part of the registered buffer".into())
+                            } else {
+                                None
+                            }
+                        }
+                    }
+                    // ---- linked chain of directory operations
+                    _ => {
+                        kinds.insert("linked");
+                        #[derive(Debug, Clone)]
+                        enum L {
+                            Mkdir(usize),
+                            Create(usize),
+                            Rename(usize, usize),
+                            Unlink(usize, bool),
+                            CloseBad,
+                        }
+                        let n = 2 + s.dec.choose(K::Arg, entries.min(5) - 1) as usize;
+                        let chain: Vec<L> = (0..n)
+                            .map(|_| {
+                                let x = s.dec.choose(K::Arg, 4) as usize;
+                                match s.dec.choose(K::Arg, 7) {
+                                    0 | 1 => L::Mkdir(x),
+                                    2 => L::Create(x),
+                                    3 => L::Rename(x, s.dec.choose(K::Arg, 4) as usize),
+                                    4 => L::CloseBad,
+                                    _ => L::Unlink(x, s.dec.chance(K::Arg, 1, 2)),
+                                }
+                            })
+                            .collect();
+                        let dfa_fd = fd_of(dfa);
+                        let mut sq = Vec::new();
+                        for (i, l) in chain.iter().enumerate() {
+                            let fl = if i + 1 < chain.len() { IoUringSQEFlags::IOSQE_IO_LINK } else { no };
+                            let u = ud + i as u64;
+                            let e = unsafe {
+                                match l {
+                                    L::Mkdir(x) => Sqe::new_mkdirat(Some(dfa_fd), &names[*x], Mode::from(0o755), u, fl),
+                                    L::Create(x) => Sqe::new_openat(Some(dfa_fd), &names[*x], OpenFlags::O_RDWR | OpenFlags::O_CREAT | OpenFlags::O_EXCL, Mode::from(0o644), u, fl),
+                                    L::Rename(a, b) => Sqe::new_rename_at(Some(dfa_fd), Some(dfa_fd), &names[*a], &names[*b], RenameFlags::empty(), u, fl),
+                                    L::Unlink(x, rm) => Sqe::new_unlink_at(Some(dfa_fd), &names[*x], *rm, u, fl),
+                                    L::CloseBad => Sqe::new_close(Fd::try_new(1_000_000).unwrap(), u, fl),
+                                }
+                            };
+                            sq.push((u, e));
+                        }
+                        let got = match submit_reap(&mut ring, sq) {
+                            Ok(g) => g,
+                            Err(v) => return Some(v),
+                        };
+                        // twin: the same calls one after the other.  Whether a failing entry severs the
+                        // chain depends on the operation and the kernel version (directory operations do
+                        // not since 6.x), so the twin follows the ring there and only requires that a
+                        // cancelled entry comes after a failed one and that nothing runs after a cancel.
+                        let cn = |n: usize| std::ffi::CString::new(format!("n{n}")).unwrap();
+                        let mut failed = false;
+                        let mut cancelled = false;
+                        let mut v = None;
+                        for (i, l) in chain.iter().enumerate() {
+                            let ring_res = got[&(ud + i as u64)];
+                            if ring_res == -125 && !failed && v.is_none() {
+                                v = ext_viol("Linked", "cancelled-without-failure", format!("entry {i} of the linked chain {chain:?} was cancelled although no earlier entry failed"));
+                            }
+                            if ring_res != -125 && cancelled && v.is_none() {
+                                v = ext_viol("Linked", "ran-after-cancel", format!("entry {i} of the linked chain {chain:?} ran although an earlier entry of the chain was cancelled"));
+                            }
+                            if ring_res == -125 {
+                                if !cancelled {
+                                    counters.push(("probe.linked_chain_severed", 1));
+                                }
+                                cancelled = true;
+                            }
+                            let tw: i32 = if ring_res == -125 {
+                                -125
+                            } else {
+                                let r = unsafe {
+                                    match l {
+                                        L::Mkdir(x) => libc::mkdirat(dfb, cn(*x).as_ptr(), 0o755),
+                                        L::Create(x) => {
+                                            let f = libc::openat(dfb, cn(*x).as_ptr(), libc::O_RDWR | libc::O_CREAT | libc::O_EXCL, 0o644);
+                                            if f >= 0 {
+                                                libc::close(f);
+                                                0
+                                            } else {
+                                                f
+                                            }
+                                        }
+                                        L::Rename(a, b) => libc::renameat(dfb, cn(*a).as_ptr(), dfb, cn(*b).as_ptr()),
+                                        L::Unlink(x, rm) => libc::unlinkat(dfb, cn(*x).as_ptr(), if *rm { libc::AT_REMOVEDIR } else { 0 }),
+                                        L::CloseBad => libc::close(1_000_000),
+                                    }
+                                };
+                                if r < 0 { -errno() } else { 0 }
+                            };
+                            if tw < 0 {
+                                failed = true;
+                            }
+                            let mut res = ring_res;
+                            if let L::Create(_) = l {
+                                if res >= 0 {
+                                    unsafe { libc::close(res) };
+                                    res = 0;
+                                }
+                            }
+                            log.push(format!("linked[{i}] {l:?} -> ring {res} twin {tw}"));
+                            if res != tw && v.is_none() {
+                                v = ext_viol("Linked", "result-differs", format!("entry {i} of the linked chain {chain:?} completes with {res}; executed one after the other the calls give {tw}"));
+                            }
+                        }
+                        if v.is_none() {
+                            let (a, b) = (dir_digest(&da), dir_digest(&db));
+                            if a != b {
+                                v = ext_viol("Linked", "side-effects-differ", format!("after the linked chain {chain:?} the ring's directory holds {:?}, the twin's {:?}", a.keys().map(|k| String::from_utf8_lossy(k).to_string()).collect::<Vec<_>>(), b.keys().map(|k| String::from_utf8_lossy(k).to_string()).collect::<Vec<_>>()));
+                            }
+                        }
+                        v
+                    }
+                };
+                if v.is_some() {
+                    verdict = v;
+                    break;
+                }
+            }
+            close_all(&[la, lb, lia, lib, fa, fb, dfa, dfb]);
+            drop(ring);
+            drop(reg0);
+            drop(reg1);
+            verdict.or_else(|| teardown_verdict(&led, "after-socket-ops"))
+        }));
+        viol = match r {
+            Ok(v) => v,
+            Err(_) => {
+                let (msg, loc) = sched::take_last_panic().unwrap_or_default();
+                let loc = sched::short_loc(&loc);
+                Some(Violation { sig: format!("panic|{loc}"), detail: format!("panic at {loc}: {msg}") })
+            }
+        };
+    });
+    let _ = std::fs::remove_dir_all(&base);
+    let mut out = RunOut::default();
+    out.violation = viol;
+    let mut h = u64::from(entries) ^ 0x5151;
+    for l in &log {
+        h = simk::dec::mix(&[h, simk::dec::hash_str(l)]);
+    }
+    out.hash = h;
+    out.shape = h;
+    out.nontrivial = kinds.len() >= 2;
+    out.evals = 0;
+    out.counters.insert("ops.compared_with_twin", nops);
+    out.counters.insert("io_uring_enter_calls", led.n_enter.get());
+    for k in &kinds {
+        let key: &'static str = match *k {
+            "connect" => "ops.kind.connect",
+            "accept_unix" => "ops.kind.accept_unix",
+            "accept_inet" => "ops.kind.accept_inet",
+            "sendmsg" => "ops.kind.sendmsg",
+            "recvmsg" => "ops.kind.recvmsg",
+            "poll_add" => "ops.kind.poll_add",
+            "fixed" => "ops.kind.fixed_buffers",
+            _ => "ops.kind.linked_chain",
+        };
+        out.counters.insert(key, 1);
+    }
+    for (k, n) in counters {
+        *out.counters.entry(k).or_insert(0) += n;
+    }
+    if opts.record {
+        out.events = log.clone();
+        out.sample = Some(json!({"kind": "socket / poll / fixed-buffer / linked operations vs direct twins", "ring_entries": entries, "rounds": rounds, "ops": log.iter().take(12).collect::<Vec<_>>()}));
+    }
+    out.decisions = std::mem::take(&mut sim.dec.log);
+    out
+}
+
 impl Check for C18 {
     fn id(&self) -> &'static str {
         "C18"
@@ -550,12 +1321,12 @@ impl Check for C18 {
         8
     }
     fn rule(&self) -> String {
-        "even cases = one ring (1..64 entries) driven with 4 (thorough: up to 40) seeded batches of 1..8 independent entries drawn from mkdirat, openat (create or not), writev (1..3 iovecs), readv, statx, renameat, unlinkat (file/dir), close, timeout, socket, incl. operations that must fail (missing names, closed descriptors); each batch is reaped completely, completions are matched by user_data (the kernel's completion order is not controlled) and every result is compared with the equivalent direct system call executed in a twin directory, then both directories are compared; exactly one completion per submission. odd cases = setup + drop with a mapping/descriptor ledger at the system-call seam, on the real kernel and on the ring stub (both IORING_FEAT_SINGLE_MMAP and two-mapping layouts), with io_uring_setup or the 1st/2nd/3rd mmap failing by decision: every ring mapping unmapped exactly once with its own length, nothing else unmapped, descriptor closed exactly once, nothing left after a failed setup. non-trivial = batch run with >=4 compared operations incl. a failing one, or a setup fault that fired; distinct = hash of configuration and results".into()
+        "cases 0 mod 4 = one ring (1..64 entries) driven with 4 (thorough: up to 40) seeded batches of 1..8 independent entries drawn from mkdirat, openat (create or not), writev (1..3 iovecs), readv, statx, renameat, unlinkat (file/dir), close, timeout, socket, incl. operations that must fail (missing names, closed descriptors); each batch is reaped completely, completions are matched by user_data (the kernel's completion order is not controlled) and every result is compared with the equivalent direct system call executed in a twin directory, then both directories are compared; exactly one completion per submission. cases 2 mod 4 = one ring (2..32 entries, plain / SQE128 / CQE32) driven with 6 (thorough: up to 30) seeded rounds drawn from: connect (listening socket, missing path, regular file) vs connect(2) incl. the pending connection it leaves; accept of a pre-connected named or unnamed unix client / loopback TCP client, with or without address buffers, initial length 0/2/8/16/20/110/128, buffers zeroed or 0xff, compared with accept4(2) for result, written length, address bytes and canaries around both buffers; sendmsg (1..30000 bytes, 1..3 iovecs, 0..5 SCM_RIGHTS descriptors) vs sendmsg(2), judged by what the peer receives; recvmsg (data buffer 1..5000, control buffer 0..200 bytes, 0..3 descriptors) vs recvmsg(2) for result, bytes, descriptors found by rusl's control-message iterator (identity by fstat) and canaries; poll_add on a descriptor in a ready state (writable / readable / hung up) vs poll(2); write_fixed + read_fixed on registered buffers at seeded offsets vs pwrite/pread incl. bytes outside the requested range; linked chains of 2..5 dependent directory operations (mkdir, create, rename, unlink, close of a bad descriptor) vs the same calls one after the other (the twin follows the ring on whether a failure severs the chain, which is kernel-version dependent, and requires cancelled entries to form a suffix that starts after a failed entry). odd cases = setup + drop with a mapping/descriptor ledger at the system-call seam, on the real kernel and on the ring stub (both IORING_FEAT_SINGLE_MMAP and two-mapping layouts), with io_uring_setup or the 1st/2nd/3rd mmap failing by decision: every ring mapping unmapped exactly once with its own length, nothing else unmapped, descriptor closed exactly once, nothing left after a failed setup (the same ledger verdict closes every operation run). non-trivial = batch run with >=4 compared operations incl. a failing one, a socket run with >=2 operation kinds, or a setup fault that fired; distinct = hash of configuration and results".into()
     }
     fn assumptions(&self) -> Vec<String> {
         vec![
             "the real kernel executes the ring: its completion order and worker threads are not controlled; results are normalised by user_data and batches contain mutually independent entries".into(),
-            "fixed-buffer read/write, connect/accept, sendmsg/recvmsg, poll_add and linked chains are not generated".into(),
+            "socket, poll and fixed-buffer operations are submitted one at a time on objects the harness prepared so that they complete at once (pending connection, queued data, ready descriptor): operations that would wait for a second party are not generated".into(),
             "descriptor-returning operations are compared by success/errno, not by number".into(),
         ]
     }
@@ -565,6 +1336,8 @@ impl Check for C18 {
     fn run(&self, case: u64, dec: Dec, opts: &RunOpts) -> RunOut {
         if case % 2 == 1 {
             run_teardown(dec, opts)
+        } else if case % 4 == 2 {
+            run_ext_ops(dec, opts, case, if opts.tier == Tier::Thorough && case % 16 == 2 { 30 } else { 6 })
         } else {
             let nb = if opts.tier == Tier::Thorough && case % 16 == 0 { 40 } else { 4 };
             run_ops(dec, opts, case, nb)
